@@ -559,8 +559,8 @@ def _initialize_state_vars(network):
 						+ (n.get_attribute('initial_orders', prod_ind) or 0) * (n.get_attribute('order_lead_time', prod_ind) or 0)
 
 				# Initialize raw material inventory.
-				for rm_index in n.raw_materials_by_product(product='all', return_indices=True, network_BOM=True):
-					n.state_vars[0].raw_material_inventory[rm_index] = 0   
+				for rm_ind in n.raw_materials_by_product(product='all', return_indices=True, network_BOM=True):
+					n.state_vars[0].raw_material_inventory[rm_ind] = 0   
 
 
 def _receive_inbound_orders(node):
